@@ -221,7 +221,6 @@ for (st, pre), ops in CHAIN_CASES.items():
         # flags: bit 1 = calculated outcome compared afterwards, bit 2 = repetition table compared
         variants = [('', 0)] if code < 30 else [('', 2)]
         if code < 20 and ok in ('castling', 'ep', 'queen', 'knight', 'king'):
-            variants.append(('_outcome', 2))
             variants.append(('_rep', 4))
         for suffix, flags in variants:
             reg('c13_chain_step_s%d_p%d_%s%s' % (st, pre, ok, suffix), 'C13', T, 3600, 12 if code == 30 else 16,
@@ -241,8 +240,8 @@ for st, gk in [(0, 'pawn'), (0, 'king'), (0, 'castling'), (1, 'pspecial'), (4, '
 for st, pre, gk in [(1, 3, None), (5, 3, None), (5, 4, None), (0, 3, None), (0, 1, 'king'), (2, 0, 'rook')]:
     reg('c17_walker_s%d_p%d_%s' % (st, pre, gk or 'concrete'), 'C17', T, 3600, 12,
         'stated chain (start %d, prefix %d)%s; 6 symbolic walker operations' % (st, pre, ' extended by one symbolic accepted move of group ' + gk if gk else ''),
-        'c13::walker_steps::<_, %d, %d, %d, 6>' % (st, pre, KGCODE[gk] if gk else 0), 's13', 66, bounds='chains of at most 9 moves; at most 6 walker operations',
-        props=['C17', 'C04'])
+        'c13::walker_steps::<_, %d, %d, %d, 5>' % (st, pre, KGCODE[gk] if gk else 0), 's13', 66, bounds='chains of at most 9 moves; at most 5 walker operations',
+        props=['C17', 'C04'], gen_k=(0, 0))
 reg('c14_outcome_filter_table', 'C14', QT, 300, 4, 'all outcomes x 3 filters (exhaustive)', 'c14::outcome_filter_table')
 reg('c14_chain_outcome_precedence', 'C14', QT, 900, 8, 'all board outcomes x every usize count x 3 filters', 'c14::chain_outcome_precedence', 's5', 66)
 
@@ -289,8 +288,8 @@ QUICK = {
             'c12_san_parse_total_5', 'c10_uci_parse_exact', 'c12_fen_board_end_5'],
     'C13': ['c13_chain_step_s0_p0_castling', 'c13_chain_push_pop_s0_p0_castling', 'c13_chain_push_pop_s1_p0_ep', 'c13_chain_step_s0_p2_other',
             'c13_chain_step_s5_p4_other', 'c13_chain_eq_s0_pawn'],
-    'C14': ['c14_outcome_filter_table', 'c14_chain_outcome_precedence', 'c07_outcome_classification_w', 'c07_outcome_lone_king_b', 'c13_chain_step_s5_p4_other', 'c13_chain_step_s5_p4_knight_outcome',
-            'c13_chain_step_s3_p0_queen_outcome'],
+    'C14': ['c14_outcome_filter_table', 'c14_chain_outcome_precedence', 'c07_outcome_classification_w', 'c07_outcome_lone_king_b', 'c13_chain_step_s5_p4_other', 'c13_chain_step_s5_p4_knight_rep',
+            'c13_chain_step_s3_p0_other'],
     'C15': ['c15_leapers_exact', 'c15_between_exact', 'c15_bishop_exact'],
     'C16': ['c16_attackers_exact_w', 'c16_attackers_exact_b'],
     'C17': ['c17_walker_s1_p3_concrete', 'c17_walker_s5_p4_concrete', 'c17_walker_s0_p1_king'],
